@@ -151,6 +151,12 @@ func c09Snapshot(c *Check) {
 	}
 	// C09.L: leader side
 	c09Leader(c)
+	c09Promotable(c)
+}
+
+// C09.E — a node with a pending snapshot does not campaign.
+func c09Promotable(c *Check) {
+	p := c.P
 	// C09.E: no campaigning with a pending snapshot
 	promotable := p.Method("raft", "raft", "promotable")
 	hasSnap := p.Method("raft", "raftLog", "hasNextOrInProgressSnapshot")
